@@ -75,21 +75,53 @@ def _never_empty_def(fn: ast.FunctionDef, name: str) -> bool:
 
 
 def _len_fact(e: ast.expr, pol: bool) -> Optional[tuple[str, int]]:
-    """assume `len(x) == k` / `len(x) in (a, b)` True -> (x, min length)."""
-    if isinstance(e, ast.Compare) and len(e.ops) == 1 and isinstance(e.left, ast.Call) and isinstance(e.left.func, ast.Name) and e.left.func.id == "len" and isinstance(e.left.args[0], ast.Name):
-        x = e.left.args[0].id
-        op, r = e.ops[0], e.comparators[0]
-        if pol and isinstance(op, ast.Eq) and isinstance(r, ast.Constant):
-            return (x, r.value)
-        if pol and isinstance(op, ast.In) and isinstance(r, (ast.Tuple, ast.List, ast.Set)) and all(isinstance(c, ast.Constant) for c in r.elts):
-            return (x, min(c.value for c in r.elts))
-        if not pol and isinstance(op, ast.NotEq) and isinstance(r, ast.Constant):
-            return (x, r.value)
-        if pol and isinstance(op, (ast.Gt,)) and isinstance(r, ast.Constant):
-            return (x, r.value + 1)
-        if pol and isinstance(op, (ast.GtE,)) and isinstance(r, ast.Constant):
-            return (x, r.value)
-    return None
+    """Lower bound on len(x) implied by assuming the comparison `e` has truth value `pol`:
+    `len(x) == k`, `len(x) in (a, b)`, `len(x) > k`, `k <= len(x) <= m` (chains), the mirrored forms, and the negations of single comparisons."""
+    if not isinstance(e, ast.Compare):
+        return None
+    if not pol and len(e.ops) != 1:
+        return None  # a false chain says nothing about either end
+
+    def len_of(x: ast.expr) -> Optional[str]:
+        if isinstance(x, ast.Call) and isinstance(x.func, ast.Name) and x.func.id == "len" and len(x.args) == 1 and isinstance(x.args[0], ast.Name):
+            return x.args[0].id
+        return None
+
+    def const(x: ast.expr) -> Optional[int]:
+        return x.value if isinstance(x, ast.Constant) and isinstance(x.value, int) and not isinstance(x.value, bool) else None
+
+    NEG = {ast.Eq: ast.NotEq, ast.NotEq: ast.Eq, ast.Lt: ast.GtE, ast.GtE: ast.Lt, ast.Gt: ast.LtE, ast.LtE: ast.Gt, ast.In: ast.NotIn, ast.NotIn: ast.In}
+    MIRROR = {ast.Eq: ast.Eq, ast.NotEq: ast.NotEq, ast.Lt: ast.Gt, ast.Gt: ast.Lt, ast.LtE: ast.GtE, ast.GtE: ast.LtE}
+    operands = [e.left] + list(e.comparators)
+    best: Optional[tuple[str, int]] = None
+    for l, op, r in zip(operands, e.ops, operands[1:]):
+        ot = type(op)
+        if not pol:
+            ot = NEG.get(ot)
+            if ot is None:
+                continue
+        x = len_of(l)
+        other = r
+        if x is None and len_of(r) is not None and ot in MIRROR:
+            x, other, ot = len_of(r), l, MIRROR[ot]
+        if x is None:
+            continue
+        bound = None
+        k = const(other)
+        if ot is ast.Eq and k is not None:
+            bound = k
+        elif ot is ast.Gt and k is not None:
+            bound = k + 1
+        elif ot is ast.GtE and k is not None:
+            bound = k
+        elif ot is ast.In and isinstance(other, (ast.Tuple, ast.List, ast.Set)) and other.elts and all(const(c) is not None for c in other.elts):
+            bound = min(const(c) for c in other.elts)
+        elif ot is ast.In and isinstance(other, ast.Call) and isinstance(other.func, ast.Name) and other.func.id == "range" and len(other.args) in (2, 3) and const(other.args[0]) is not None \
+                and (len(other.args) == 2 or (const(other.args[2]) or 0) > 0):
+            bound = const(other.args[0])
+        if bound is not None and (best is None or (best[0] == x and bound > best[1])):
+            best = (x, bound)
+    return best
 
 
 def _syntactic_guard(fn: ast.FunctionDef, site: ast.AST, name: str, need: int) -> bool:
@@ -284,9 +316,30 @@ def strptime_guards(run: Run, model: PyModel) -> None:
     run.check("C08.R1", "is_zid is True only when is_short_date_spec accepted the date part", zid_ok, "is_zid", "date part unchecked", "is_zid does not validate the date part of a ZID", file="src/zorg/shared/dates.py", node=fz.node)
     # the call sites: each strptime / from_short_date_spec in the compiler is dominated by the matching recogniser
     ci = model.cls(f"{FC}.ZorgFileCompiler")
+    # zorg functions that let a strptime ValueError escape (call strptime, or another such function, outside `try ... except ValueError`)
+    def _unprotected_calls(f):
+        prot: set[int] = set()
+        for t in ast.walk(f.node):
+            if isinstance(t, ast.Try) and any(h.type is None or any(x in ast.unparse(h.type) for x in ("ValueError", "Exception")) for h in t.handlers):
+                for b in t.body:
+                    prot.update(id(c) for c in ast.walk(b))
+        return [c for c in walk_no_nested(f.node) if isinstance(c, ast.Call) and id(c) not in prot]
+
+    raisers: set[str] = set()
+    changed = True
+    while changed:
+        changed = False
+        for q, f in model.funcs.items():
+            if q in raisers or not q.startswith("zorg.shared.dates."):
+                continue
+            for c in _unprotected_calls(f):
+                if ast.unparse(c.func).split(".")[-1] == "strptime" or model.callee(f, c) in raisers:
+                    raisers.add(q)
+                    changed = True
+                    break
     n = 0
     for m in ci.methods.values():
-        sites = [c for c in ast.walk(m.node) if isinstance(c, ast.Call) and ast.unparse(c.func).split(".")[-1] in ("strptime", "from_short_date_spec")]
+        sites = [c for c in ast.walk(m.node) if isinstance(c, ast.Call) and (ast.unparse(c.func).split(".")[-1] == "strptime" or model.callee(m, c) in raisers)]
         if not sites:
             continue
         for p in enum_paths(m.node):
